@@ -675,4 +675,662 @@ theorem ciMaxSize_isPanic_iff {T : Type} [Cmp T] (cap : Nat) (crit : Crit W) (co
 
 end Quantile
 
+/-! ## more on `Arith.ciMean`: every outcome classified -/
+
+theorem Confidence.flipped_quantile' {W : Type} [Scalar W] (c : Confidence W) :
+    c.flipped.quantile = c.quantile := by cases c <;> rfl
+
+theorem Confidence.flipped_kind_twoSided {W : Type} (c : Confidence W) :
+    c.flipped.kind = .twoSided ↔ c.kind = .twoSided := by cases c <;> simp [Confidence.flipped, Confidence.kind]
+
+namespace Arith
+variable {F W : Type} [Scalar F] [Scalar W] [Widen F W]
+
+theorem ciMean_of_lt (crit : Crit W) (a : Arith F) (conf : Confidence W) (h : a.count < 2) :
+    ciMean crit a conf = .err (.tooFewSamples a.count) := by
+  unfold ciMean; rw [ciPrep_of_lt a h]; rfl
+
+theorem ciMean_of_nonfinite (crit : Crit W) (a : Arith F) (conf : Confidence W) (h : 2 ≤ a.count)
+    (hf : isFinite (Widen.up a.mean : W) = false ∨ isFinite (Widen.up a.stdDev : W) = false) :
+    ciMean crit a conf = .err .invalidInputData := by
+  unfold ciMean; rw [ciPrep_of_nonfinite a h hf]; rfl
+
+/-- the shape of every `Ok` of `ci_mean` (no hypotheses) -/
+theorem ciMean_eq_ok {crit : Crit W} {a : Arith F} {conf : Confidence W} {i : Interval F}
+    (h : ciMean crit a conf = .ok i) :
+    2 ≤ a.count ∧ isFinite (Widen.up a.mean : W) = true ∧ isFinite (Widen.up a.stdDev : W) = true ∧
+    ∃ lo hi : F, (conf.kind = .twoSided → i = .twoSided lo hi ∧ gt lo hi = false) ∧
+      (conf.kind = .upper → i = .upper lo) ∧ (conf.kind = .lower → i = .lower hi) := by
+  unfold ciMean at h
+  obtain ⟨p, hp, h⟩ := Outcome.bind_eq_ok h
+  obtain ⟨b, _, h⟩ := Outcome.bind_eq_ok h
+  obtain ⟨h2, hm, hs, _⟩ := ciPrep_eq_ok hp
+  exact ⟨h2, hm, hs, _, _, intervalOfKind_eq_ok h⟩
+
+/-- every `Err` of `ci_mean` is one of the three documented classes -/
+theorem ciMean_eq_err {crit : Crit W} {a : Arith F} {conf : Confidence W} {e : Err W}
+    (h : ciMean crit a conf = .err e) :
+    (a.count < 2 ∧ e = .tooFewSamples a.count) ∨
+    (2 ≤ a.count ∧ e = .invalidInputData ∧
+      (isFinite (Widen.up a.mean : W) = false ∨ isFinite (Widen.up a.stdDev : W) = false)) ∨
+    (2 ≤ a.count ∧ e = .interval .invalidBounds ∧ conf.kind = .twoSided) := by
+  by_cases hc : a.count < 2
+  · rw [ciMean_of_lt crit a conf hc] at h; cases h; exact Or.inl ⟨hc, rfl⟩
+  have hc : 2 ≤ a.count := by omega
+  by_cases hm : isFinite (Widen.up a.mean : W) = true
+  swap
+  · have hf := Or.inl (b := isFinite (Widen.up a.stdDev : W) = false) (Bool.eq_false_iff.mpr hm)
+    rw [ciMean_of_nonfinite crit a conf hc hf] at h; cases h; exact Or.inr (Or.inl ⟨hc, rfl, hf⟩)
+  by_cases hs : isFinite (Widen.up a.stdDev : W) = true
+  swap
+  · have hf := Or.inr (a := isFinite (Widen.up a.mean : W) = false) (Bool.eq_false_iff.mpr hs)
+    rw [ciMean_of_nonfinite crit a conf hc hf] at h; cases h; exact Or.inr (Or.inl ⟨hc, rfl, hf⟩)
+  unfold ciMean at h
+  rw [ciPrep_of_finite a hc hm hs] at h
+  simp only [Outcome.bind_ok] at h
+  cases hb : intervalBounds crit conf (Widen.up a.mean : W)
+      (div (Widen.up a.stdDev) (sqrt (Scalar.ofNat a.count))) (sub (Scalar.ofNat a.count) one) with
+  | ok b =>
+    rw [hb] at h
+    obtain ⟨he, hk, _⟩ := intervalOfKind_eq_err h
+    exact Or.inr (Or.inr ⟨hc, he, hk⟩)
+  | err e' => exact absurd hb (intervalBounds_never_err _ _ _ _ _ _)
+  | panic t => rw [hb] at h; cases h
+
+/-- exactly when `ci_mean` panics (no law class needed) -/
+theorem ciMean_isPanic_iff (crit : Crit W) (a : Arith F) (conf : Confidence W) :
+    (ciMean crit a conf).isPanic = true ↔
+      2 ≤ a.count ∧ isFinite (Widen.up a.mean : W) = true ∧ isFinite (Widen.up a.stdDev : W) = true ∧
+      ((lt (sub (Scalar.ofNat a.count) one : W) (populationLimit : W) = true ∧
+          gt (sub (Scalar.ofNat a.count) one : W) (zero : W) = false) ∨
+        probOk conf.quantile = false) := by
+  by_cases hc : a.count < 2
+  · rw [ciMean_of_lt crit a conf hc]; simp; omega
+  have hc : 2 ≤ a.count := by omega
+  by_cases hm : isFinite (Widen.up a.mean : W) = true
+  swap
+  · rw [ciMean_of_nonfinite crit a conf hc (Or.inl (Bool.eq_false_iff.mpr hm))]; simp [hm]
+  by_cases hs : isFinite (Widen.up a.stdDev : W) = true
+  swap
+  · rw [ciMean_of_nonfinite crit a conf hc (Or.inr (Bool.eq_false_iff.mpr hs))]; simp [hs]
+  unfold ciMean
+  rw [ciPrep_of_finite a hc hm hs]
+  simp only [Outcome.bind_ok, hc, hm, hs, true_and]
+  rw [← intervalBounds_isPanic_iff crit conf (Widen.up a.mean : W)
+      (div (Widen.up a.stdDev) (sqrt (Scalar.ofNat a.count)))]
+  cases hb : intervalBounds crit conf (Widen.up a.mean : W)
+      (div (Widen.up a.stdDev) (sqrt (Scalar.ofNat a.count))) (sub (Scalar.ofNat a.count) one) with
+  | ok b => simp [intervalOfKind_isPanic]
+  | err e' => simp
+  | panic t => simp
+
+theorem extend_count (a : Arith F) (xs : List F) : (a.extend xs).count = a.count + xs.length := by
+  induction xs generalizing a with
+  | nil => rfl
+  | cons x xs ih =>
+    show ((a.append x).extend xs).count = _
+    rw [ih]; simp [append]; omega
+
+theorem fromList_count (xs : List F) : (fromList xs).count = xs.length := by
+  unfold fromList; rw [extend_count]; simp [empty]
+
+end Arith
+
+/-! ## paired comparison: the `extend` loop -/
+
+namespace Paired
+variable {F W : Type} [Scalar F] [Scalar W] [Widen F W]
+
+theorem extendAux_fst (p : Paired F) (c : Nat) (as bs : List F) :
+    ((extendAux p c as bs).1 : Outcome (Err W) (Paired F)) =
+      if as.length = bs.length then .ok ⟨p.stats.extend (List.zipWith sub as bs)⟩
+      else .err (.differentSampleSizes (c + as.length) (c + bs.length)) := by
+  induction as generalizing p c bs with
+  | nil =>
+    cases bs with
+    | nil => simp [extendAux, Arith.extend]
+    | cons y ys =>
+      simp only [extendAux, List.length_nil, List.length_cons]
+      rw [if_neg (by omega)]
+      congr 2 <;> omega
+  | cons x xs ih =>
+    cases bs with
+    | nil =>
+      simp only [extendAux, List.length_nil, List.length_cons]
+      rw [if_neg (by omega)]
+      congr 2 <;> omega
+    | cons y ys =>
+      simp only [extendAux, List.length_cons]
+      rw [ih]
+      by_cases h : xs.length = ys.length
+      · simp [h, appendPair, Arith.extend]
+      · simp only [h, if_false, Nat.add_right_cancel_iff]
+        congr 2 <;> omega
+
+theorem ci_of_length_ne (crit : Crit W) (conf : Confidence W) {as bs : List F}
+    (h : as.length ≠ bs.length) :
+    ci crit conf as bs = .err (.differentSampleSizes as.length bs.length) := by
+  unfold ci extend
+  rw [extendAux_fst]
+  simp [h]
+
+theorem ci_of_length_eq (crit : Crit W) (conf : Confidence W) {as bs : List F}
+    (h : as.length = bs.length) :
+    ci crit conf as bs = Arith.ciMean crit (Arith.fromList (List.zipWith sub as bs)) conf := by
+  unfold ci extend
+  rw [extendAux_fst]
+  simp [h, ciMean, empty, Arith.fromList]
+
+theorem ci_isPanic [LawfulCount W] (crit : Crit W) (conf : Confidence W) (as bs : List F)
+    (hq : probOk conf.quantile = true) : (ci crit conf as bs).isPanic = false := by
+  by_cases h : as.length = bs.length
+  · rw [ci_of_length_eq crit conf h]; exact Arith.ciMean_isPanic _ _ _ hq
+  · rw [ci_of_length_ne crit conf h]; rfl
+
+end Paired
+
+/-! ## geometric and harmonic means: the `extend` loops and `ci` -/
+
+namespace Geometric
+variable {F W : Type} [Scalar F] [Scalar W] [Widen F W]
+
+omit [Scalar W] in
+theorem extend_fst_of_pos (g : Geometric F) (xs : List F) (h : ∀ x ∈ xs, le x (zero : F) = false) :
+    ((extend g xs).1 : Outcome (Err W) (Geometric F)) = .ok ⟨g.logs.extend (xs.map ln)⟩ := by
+  induction xs generalizing g with
+  | nil => rfl
+  | cons x xs ih =>
+    have hx : le x (zero : F) = false := h x (by simp)
+    simp only [extend, append, hx, Bool.false_eq_true, if_false]
+    rw [ih _ (fun y hy => h y (by simp [hy]))]
+    rfl
+
+omit [Scalar W] in
+theorem extend_fst_of_nonpos (g : Geometric F) (pre : List F) (x : F) (post : List F)
+    (hpre : ∀ y ∈ pre, le y (zero : F) = false) (hx : le x (zero : F) = true) :
+    ((extend g (pre ++ x :: post)).1 : Outcome (Err W) (Geometric F)) =
+      .err (.nonPositiveValue (Widen.up x)) := by
+  induction pre generalizing g with
+  | nil => simp [extend, append, hx]
+  | cons y ys ih =>
+    have hy : le y (zero : F) = false := hpre y (by simp)
+    simp only [List.cons_append, extend, append, hy, Bool.false_eq_true, if_false]
+    exact ih _ (fun z hz => hpre z (by simp [hz]))
+
+/-- a list either is positive throughout or has a first non-positive element -/
+theorem split_first_nonpos (xs : List F) :
+    (∀ x ∈ xs, le x (zero : F) = false) ∨
+    ∃ pre x post, xs = pre ++ x :: post ∧ (∀ y ∈ pre, le y (zero : F) = false) ∧
+      le x (zero : F) = true := by
+  induction xs with
+  | nil => left; simp
+  | cons x xs ih =>
+    by_cases hx : le x (zero : F) = true
+    · exact Or.inr ⟨[], x, xs, rfl, by simp, hx⟩
+    · have hx : le x (zero : F) = false := by simpa using hx
+      rcases ih with h | ⟨pre, y, post, rfl, hpre, hy⟩
+      · left; intro z hz; rcases List.mem_cons.mp hz with rfl | hz; exacts [hx, h z hz]
+      · refine Or.inr ⟨x :: pre, y, post, rfl, ?_, hy⟩
+        intro z hz; rcases List.mem_cons.mp hz with rfl | hz; exacts [hx, hpre z hz]
+
+theorem ci_of_pos (crit : Crit W) (conf : Confidence W) (xs : List F)
+    (h : ∀ x ∈ xs, le x (zero : F) = false) :
+    ci crit conf xs = ciMean crit ⟨Arith.fromList (xs.map ln)⟩ conf := by
+  unfold ci fromList
+  rw [extend_fst_of_pos _ _ h]
+  rfl
+
+theorem ci_of_nonpos (crit : Crit W) (conf : Confidence W) (pre : List F) (x : F) (post : List F)
+    (hpre : ∀ y ∈ pre, le y (zero : F) = false) (hx : le x (zero : F) = true) :
+    ci crit conf (pre ++ x :: post) = .err (.nonPositiveValue (Widen.up x)) := by
+  unfold ci fromList
+  rw [extend_fst_of_nonpos _ _ _ _ hpre hx]
+  rfl
+
+theorem ciMean_isPanic [LawfulCount W] (crit : Crit W) (g : Geometric F) (conf : Confidence W)
+    (hq : probOk conf.quantile = true) : (ciMean crit g conf).isPanic = false := by
+  unfold ciMean
+  exact Outcome.isPanic_bind (Arith.ciMean_isPanic _ _ _ hq) fun _ _ => intervalOfKind_isPanic _ _ _
+
+theorem ci_isPanic [LawfulCount W] (crit : Crit W) (conf : Confidence W) (xs : List F)
+    (hq : probOk conf.quantile = true) : (ci crit conf xs).isPanic = false := by
+  rcases split_first_nonpos xs with h | ⟨pre, x, post, rfl, hpre, hx⟩
+  · rw [ci_of_pos crit conf xs h]; exact ciMean_isPanic _ _ _ hq
+  · rw [ci_of_nonpos crit conf pre x post hpre hx]; rfl
+
+theorem ciMean_eq_ok {crit : Crit W} {g : Geometric F} {conf : Confidence W} {i : Interval F}
+    (h : ciMean crit g conf = .ok i) :
+    2 ≤ g.logs.count ∧ isFinite (Widen.up g.logs.mean : W) = true ∧
+    isFinite (Widen.up g.logs.stdDev : W) = true ∧
+    ∃ lo hi : F, (conf.kind = .twoSided → i = .twoSided lo hi ∧ gt lo hi = false) ∧
+      (conf.kind = .upper → i = .upper lo) ∧ (conf.kind = .lower → i = .lower hi) := by
+  unfold ciMean at h
+  obtain ⟨j, hj, h⟩ := Outcome.bind_eq_ok h
+  obtain ⟨h2, hm, hs, _⟩ := Arith.ciMean_eq_ok hj
+  exact ⟨h2, hm, hs, _, _, intervalOfKind_eq_ok h⟩
+
+end Geometric
+
+namespace Harmonic
+variable {F W : Type} [Scalar F] [Scalar W] [Widen F W]
+
+omit [Scalar W] in
+theorem extend_fst_of_pos (g : Harmonic F) (xs : List F) (h : ∀ x ∈ xs, le x (zero : F) = false) :
+    ((extend g xs).1 : Outcome (Err W) (Harmonic F)) =
+      .ok ⟨g.recip.extend (xs.map fun x => div one x)⟩ := by
+  induction xs generalizing g with
+  | nil => rfl
+  | cons x xs ih =>
+    have hx : le x (zero : F) = false := h x (by simp)
+    simp only [extend, append, hx, Bool.false_eq_true, if_false]
+    rw [ih _ (fun y hy => h y (by simp [hy]))]
+    rfl
+
+omit [Scalar W] in
+theorem extend_fst_of_nonpos (g : Harmonic F) (pre : List F) (x : F) (post : List F)
+    (hpre : ∀ y ∈ pre, le y (zero : F) = false) (hx : le x (zero : F) = true) :
+    ((extend g (pre ++ x :: post)).1 : Outcome (Err W) (Harmonic F)) =
+      .err (.nonPositiveValue (Widen.up x)) := by
+  induction pre generalizing g with
+  | nil => simp [extend, append, hx]
+  | cons y ys ih =>
+    have hy : le y (zero : F) = false := hpre y (by simp)
+    simp only [List.cons_append, extend, append, hy, Bool.false_eq_true, if_false]
+    exact ih _ (fun z hz => hpre z (by simp [hz]))
+
+theorem ci_of_pos (crit : Crit W) (conf : Confidence W) (xs : List F)
+    (h : ∀ x ∈ xs, le x (zero : F) = false) :
+    ci crit conf xs = ciMean crit ⟨Arith.fromList (xs.map fun x => div one x)⟩ conf := by
+  unfold ci fromList
+  rw [extend_fst_of_pos _ _ h]
+  rfl
+
+theorem ci_of_nonpos (crit : Crit W) (conf : Confidence W) (pre : List F) (x : F) (post : List F)
+    (hpre : ∀ y ∈ pre, le y (zero : F) = false) (hx : le x (zero : F) = true) :
+    ci crit conf (pre ++ x :: post) = .err (.nonPositiveValue (Widen.up x)) := by
+  unfold ci fromList
+  rw [extend_fst_of_nonpos _ _ _ _ hpre hx]
+  rfl
+
+theorem ciMean_isPanic [LawfulCount W] (crit : Crit W) (g : Harmonic F) (conf : Confidence W)
+    (hq : probOk conf.quantile = true) : (ciMean crit g conf).isPanic = false := by
+  unfold ciMean
+  refine Outcome.isPanic_bind (Arith.ciMean_isPanic _ _ _ ?_) fun _ _ => intervalOfKind_isPanic _ _ _
+  rw [Confidence.flipped_quantile']; exact hq
+
+theorem ci_isPanic [LawfulCount W] (crit : Crit W) (conf : Confidence W) (xs : List F)
+    (hq : probOk conf.quantile = true) : (ci crit conf xs).isPanic = false := by
+  rcases Geometric.split_first_nonpos xs with h | ⟨pre, x, post, rfl, hpre, hx⟩
+  · rw [ci_of_pos crit conf xs h]; exact ciMean_isPanic _ _ _ hq
+  · rw [ci_of_nonpos crit conf pre x post hpre hx]; rfl
+
+theorem ciMean_eq_ok {crit : Crit W} {g : Harmonic F} {conf : Confidence W} {i : Interval F}
+    (h : ciMean crit g conf = .ok i) :
+    2 ≤ g.recip.count ∧ isFinite (Widen.up g.recip.mean : W) = true ∧
+    isFinite (Widen.up g.recip.stdDev : W) = true ∧
+    ∃ lo hi : F, (conf.kind = .twoSided → i = .twoSided lo hi ∧ gt lo hi = false) ∧
+      (conf.kind = .upper → i = .upper lo) ∧ (conf.kind = .lower → i = .lower hi) := by
+  unfold ciMean at h
+  obtain ⟨j, hj, h⟩ := Outcome.bind_eq_ok h
+  obtain ⟨h2, hm, hs, _⟩ := Arith.ciMean_eq_ok hj
+  exact ⟨h2, hm, hs, _, _, intervalOfKind_eq_ok h⟩
+
+end Harmonic
+
+/-! ## unpaired comparison -/
+
+namespace Unpaired
+variable {F W : Type} [Scalar F] [Scalar W] [Widen F W]
+
+/-- `s²/n` of one sample, in the crate's operation order -/
+def s2n (a : Arith F) : F := div (mul a.stdDev a.stdDev) (Scalar.ofNat a.count)
+/-- the difference of the sample means -/
+def meanDiff (u : Unpaired F) : F := sub u.a.mean u.b.mean
+/-- the standard error of the difference -/
+def semF (u : Unpaired F) : F := sqrt (add (s2n u.a) (s2n u.b))
+/-- the effective degrees of freedom `ci_mean` hands on -/
+def dofF (u : Unpaired F) : F :=
+  effectiveDof (s2n u.a) (s2n u.b) (Scalar.ofNat u.a.count) (Scalar.ofNat u.b.count)
+
+omit [Scalar W] in
+theorem ciPrep_cases (u : Unpaired F) :
+    (u.a.count < 2 ∧ (ciPrep u : Outcome (Err W) (Arith.Prep W)) = .err (.tooFewSamples u.a.count)) ∨
+    (2 ≤ u.a.count ∧ u.b.count < 2 ∧
+      (ciPrep u : Outcome (Err W) (Arith.Prep W)) = .err (.tooFewSamples u.b.count)) ∨
+    (2 ≤ u.a.count ∧ 2 ≤ u.b.count ∧
+      (isFinite (meanDiff u) = false ∨ isFinite (semF u) = false) ∧
+      (ciPrep u : Outcome (Err W) (Arith.Prep W)) = .err .invalidInputData) ∨
+    (2 ≤ u.a.count ∧ 2 ≤ u.b.count ∧ isFinite (meanDiff u) = true ∧ isFinite (semF u) = true ∧
+      (ciPrep u : Outcome (Err W) (Arith.Prep W)) =
+        .ok ⟨Widen.up (meanDiff u), Widen.up (semF u), Widen.up (dofF u)⟩) := by
+  by_cases ha : u.a.count < 2
+  · exact Or.inl ⟨ha, by simp [ciPrep, ha]⟩
+  by_cases hb : u.b.count < 2
+  · exact Or.inr (Or.inl ⟨by omega, hb, by simp [ciPrep, ha, hb]⟩)
+  by_cases hm : isFinite (meanDiff u) = true
+  · by_cases hs : isFinite (semF u) = true
+    · refine Or.inr (Or.inr (Or.inr ⟨by omega, by omega, hm, hs, ?_⟩))
+      unfold meanDiff at hm
+      unfold semF s2n at hs
+      simp [ciPrep, ha, hb, hm, hs, meanDiff, semF, dofF, s2n]
+    · refine Or.inr (Or.inr (Or.inl ⟨by omega, by omega, Or.inr (by simpa using hs), ?_⟩))
+      unfold semF s2n at hs
+      simp [ciPrep, ha, hb, hs]
+  · refine Or.inr (Or.inr (Or.inl ⟨by omega, by omega, Or.inl (by simpa using hm), ?_⟩))
+    unfold meanDiff at hm
+    simp [ciPrep, ha, hb, hm]
+
+theorem ciPrep_eq_ok {u : Unpaired F} {p : Arith.Prep W}
+    (h : (ciPrep u : Outcome (Err W) (Arith.Prep W)) = .ok p) :
+    2 ≤ u.a.count ∧ 2 ≤ u.b.count ∧ isFinite (meanDiff u) = true ∧ isFinite (semF u) = true ∧
+    p = ⟨Widen.up (meanDiff u), Widen.up (semF u), Widen.up (dofF u)⟩ := by
+  rcases ciPrep_cases (W := W) u with ⟨_, h'⟩ | ⟨_, _, h'⟩ | ⟨_, _, _, h'⟩ | ⟨h1, h2, h3, h4, h'⟩ <;>
+    rw [h'] at h <;> cases h
+  exact ⟨h1, h2, h3, h4, rfl⟩
+
+theorem ciPrep_isPanic (u : Unpaired F) :
+    (ciPrep u : Outcome (Err W) (Arith.Prep W)).isPanic = false := by
+  rcases ciPrep_cases (W := W) u with ⟨_, h'⟩ | ⟨_, _, h'⟩ | ⟨_, _, _, h'⟩ | ⟨_, _, _, _, h'⟩ <;>
+    rw [h'] <;> rfl
+
+/-- exactly when `Unpaired::ci_mean` panics -/
+theorem ciMean_isPanic_iff (crit : Crit W) (u : Unpaired F) (conf : Confidence W) :
+    (ciMean crit u conf).isPanic = true ↔
+      2 ≤ u.a.count ∧ 2 ≤ u.b.count ∧ isFinite (meanDiff u) = true ∧ isFinite (semF u) = true ∧
+      ((lt (Widen.up (dofF u) : W) (populationLimit : W) = true ∧
+          gt (Widen.up (dofF u) : W) (zero : W) = false) ∨
+        probOk conf.quantile = false) := by
+  unfold ciMean
+  rcases ciPrep_cases (W := W) u with ⟨h1, h'⟩ | ⟨h1, h2, h'⟩ | ⟨h1, h2, h3, h'⟩ | ⟨h1, h2, h3, h4, h'⟩ <;>
+    rw [h']
+  · simp; omega
+  · simp; omega
+  · rcases h3 with h3 | h3 <;> simp [h3]
+  · simp only [Outcome.bind_ok, h1, h2, h3, h4, true_and]
+    rw [← intervalBounds_isPanic_iff crit conf (Widen.up (meanDiff u) : W) (Widen.up (semF u) : W)]
+    cases hb : intervalBounds crit conf (Widen.up (meanDiff u) : W) (Widen.up (semF u) : W)
+        (Widen.up (dofF u) : W) with
+    | ok b => simp [intervalOfKind_isPanic]
+    | err e' => simp
+    | panic t => simp
+
+/-- the critical value `Unpaired::ci_mean` uses on a state that passes the guards -/
+def critOf (crit : Crit W) (u : Unpaired F) (conf : Confidence W) : W :=
+  crit (critReq conf (Widen.up (dofF u)))
+
+/-- closed form of `Unpaired::ci_mean` on a state that passes the guards -/
+theorem ciMean_eq (crit : Crit W) (u : Unpaired F) (conf : Confidence W)
+    (h1 : 2 ≤ u.a.count) (h2 : 2 ≤ u.b.count) (h3 : isFinite (meanDiff u) = true)
+    (h4 : isFinite (semF u) = true) (hq : probOk conf.quantile = true)
+    (hd : lt (Widen.up (dofF u) : W) (populationLimit : W) = true →
+      gt (Widen.up (dofF u) : W) (zero : W) = true) :
+    ciMean crit u conf =
+      intervalOfKind conf
+        (Widen.down (sub (Widen.up (meanDiff u) : W) (mul (critOf crit u conf) (Widen.up (semF u)))) : F)
+        (Widen.down (add (Widen.up (meanDiff u) : W) (mul (critOf crit u conf) (Widen.up (semF u)))) : F) := by
+  unfold ciMean
+  rcases ciPrep_cases (W := W) u with ⟨h, _⟩ | ⟨_, h, _⟩ | ⟨_, _, h, _⟩ | ⟨_, _, _, _, h'⟩
+  · omega
+  · omega
+  · rcases h with h | h <;> simp_all
+  · rw [h']
+    simp only [Outcome.bind_ok]
+    rw [intervalBounds_eq crit conf _ _ _ hq hd]
+    rfl
+
+theorem ciMean_eq_ok {crit : Crit W} {u : Unpaired F} {conf : Confidence W} {i : Interval F}
+    (h : ciMean crit u conf = .ok i) :
+    2 ≤ u.a.count ∧ 2 ≤ u.b.count ∧ isFinite (meanDiff u) = true ∧ isFinite (semF u) = true ∧
+    ∃ lo hi : F, (conf.kind = .twoSided → i = .twoSided lo hi ∧ gt lo hi = false) ∧
+      (conf.kind = .upper → i = .upper lo) ∧ (conf.kind = .lower → i = .lower hi) := by
+  unfold ciMean at h
+  obtain ⟨p, hp, h⟩ := Outcome.bind_eq_ok h
+  obtain ⟨b, _, h⟩ := Outcome.bind_eq_ok h
+  obtain ⟨h1, h2, h3, h4, _⟩ := ciPrep_eq_ok hp
+  exact ⟨h1, h2, h3, h4, _, _, intervalOfKind_eq_ok h⟩
+
+end Unpaired
+
+/-! ## valid confidence levels give probabilities `inverse_cdf` accepts -/
+
+namespace Confidence
+
+theorem quantile_twoSided_val (l : Rex) :
+    (Confidence.twoSided l).quantile.val = (1 + l.val) / 2 := by
+  simp [quantile]; ring
+
+theorem probOk_of_valid_Rex (conf : Confidence Rex) (h : validLevel conf.level = true) :
+    probOk conf.quantile = true := by
+  cases conf <;> simp only [validLevel, level, Bool.and_eq_true, RR.gt_iff, RR.lt_iff,
+    RR.zero_val, RR.one_val] at h <;> obtain ⟨h0, h1⟩ := h
+  · simp only [probOk, Bool.and_eq_true, RR.le_iff, quantile_twoSided_val, RR.zero_val, RR.one_val]
+    constructor <;> linarith
+  · simp [probOk, quantile, h0.le, h1.le]
+  · simp [probOk, quantile, h0.le, h1.le]
+
+theorem quantile_twoSided_XR (r : ℝ) :
+    (Confidence.twoSided (XR.fin r)).quantile = XR.fin ((1 + r) / 2) := by
+  have h2 : (1 : ℝ) + 1 ≠ 0 := by norm_num
+  simp [quantile, h2]; ring
+
+theorem probOk_of_valid_XR (conf : Confidence XR) (h : validLevel conf.level = true) :
+    probOk conf.quantile = true := by
+  have hv : ∀ l : XR, validLevel l = true → ∃ r : ℝ, l = .fin r ∧ 0 < r ∧ r < 1 := by
+    intro l hl; cases l <;> simp_all [validLevel]
+  cases conf <;> simp only [level] at h <;> obtain ⟨r, rfl, h0, h1⟩ := hv _ h
+  · rw [quantile_twoSided_XR]
+    simp only [probOk, XR.zero_eq, XR.one_eq, XR.le_fin_fin, Bool.and_eq_true, decide_eq_true_eq]
+    constructor <;> linarith
+  · simp [probOk, quantile, h0.le, h1.le]
+  · simp [probOk, quantile, h0.le, h1.le]
+
+end Confidence
+
+/-! ## `XR`: non-finite data reach the guard of `ci_mean` -/
+
+namespace XR
+
+theorem kahan_add_sum_nonfinite (k : Kahan XR) (x : XR)
+    (h : Scalar.isFinite k.sum = false ∨ Scalar.isFinite x = false) : Scalar.isFinite (k.add x).sum = false := by
+  rw [Bool.eq_false_iff]
+  intro hf
+  obtain ⟨h1, h2⟩ := isFinite_add (show Scalar.isFinite (NumOps.add k.sum (NumOps.sub x k.comp)) = true from hf)
+  obtain ⟨h3, _⟩ := isFinite_sub h2
+  rcases h with h | h <;> simp_all
+
+theorem arith_append_nonfinite (a : Arith XR) (x : XR)
+    (h : Scalar.isFinite a.sum.sum = false ∨ Scalar.isFinite x = false) :
+    Scalar.isFinite (a.append x).sum.sum = false :=
+  kahan_add_sum_nonfinite a.sum x h
+
+theorem arith_extend_nonfinite_of_state (a : Arith XR) (xs : List XR)
+    (h : Scalar.isFinite a.sum.sum = false) : Scalar.isFinite (a.extend xs).sum.sum = false := by
+  induction xs generalizing a with
+  | nil => exact h
+  | cons x xs ih => exact ih (a.append x) (arith_append_nonfinite a x (Or.inl h))
+
+theorem arith_extend_nonfinite (a : Arith XR) (xs : List XR)
+    (h : ∃ x ∈ xs, Scalar.isFinite x = false) : Scalar.isFinite (a.extend xs).sum.sum = false := by
+  induction xs generalizing a with
+  | nil => simp at h
+  | cons x xs ih =>
+    obtain ⟨y, hy, hyf⟩ := h
+    rcases List.mem_cons.mp hy with rfl | hy
+    · exact arith_extend_nonfinite_of_state (a.append y) xs (arith_append_nonfinite a y (Or.inr hyf))
+    · exact ih (a.append x) ⟨y, hy, hyf⟩
+
+theorem arith_mean_nonfinite (a : Arith XR) (h : Scalar.isFinite a.sum.sum = false) :
+    Scalar.isFinite a.mean = false := by
+  rw [Bool.eq_false_iff]
+  intro hf
+  have h1 := isFinite_div_left (show Scalar.isFinite (NumOps.div a.sum.value (Scalar.ofNat a.count)) = true from hf)
+  have h2 := (isFinite_add (show Scalar.isFinite (NumOps.add a.sum.sum a.sum.comp) = true from h1)).1
+  simp_all
+
+/-- a NaN or an infinity anywhere in the data makes `Arithmetic::ci` answer `InvalidInputData` -/
+theorem arith_ci_nonfinite (crit : Crit XR) (conf : Confidence XR) (xs : List XR)
+    (hn : 2 ≤ xs.length) (h : ∃ x ∈ xs, Scalar.isFinite x = false) :
+    Arith.ci crit conf xs = .err .invalidInputData := by
+  unfold Arith.ci
+  refine Arith.ciMean_of_nonfinite crit _ conf (by rw [Arith.fromList_count]; exact hn) (Or.inl ?_)
+  exact arith_mean_nonfinite _ (arith_extend_nonfinite _ xs h)
+
+theorem le_zero_iff (x : XR) : Cmp.le x (NumOps.zero : XR) = true ↔ x = ninf ∨ ∃ r : ℝ, x = fin r ∧ r ≤ 0 := by
+  cases x <;> simp
+
+/-! ### with a finite critical value every `Ok` bound is finite -/
+
+theorem arith_ciMean_ok_finite (crit : Crit XR) (a : Arith XR) (conf : Confidence XR)
+    (hc : ∀ r, Scalar.isFinite (crit r) = true) (hq : probOk conf.quantile = true) {i : Interval XR}
+    (h : Arith.ciMean crit a conf = .ok i) :
+    ∃ lo hi : ℝ, (conf.kind = .twoSided → i = .twoSided (fin lo) (fin hi) ∧ lo ≤ hi) ∧
+      (conf.kind = .upper → i = .upper (fin lo)) ∧ (conf.kind = .lower → i = .lower (fin hi)) := by
+  obtain ⟨h2, hm, hs, _⟩ := Arith.ciMean_eq_ok h
+  rw [Arith.ciMean_eq crit a conf h2 hm hs hq] at h
+  obtain ⟨m, hm'⟩ := (isFinite_iff _).mp hm
+  obtain ⟨s, hs'⟩ := (isFinite_iff _).mp hs
+  obtain ⟨c, hc'⟩ := (isFinite_iff _).mp (hc (critReq conf (NumOps.sub (Scalar.ofNat a.count) NumOps.one)))
+  have hn : (0 : ℝ) < a.count := by exact_mod_cast (show 0 < a.count by omega)
+  have hsq : Real.sqrt (a.count : ℝ) ≠ 0 := (Real.sqrt_pos.mpr hn).ne'
+  simp only [up_eq, down_eq] at hm' hs' h
+  rw [hm', hs', show Arith.critOf crit a conf = fin c from hc'] at h
+  simp only [ofNat_eq, sqrt_fin_of_nonneg hn.le, div_fin_fin_of_ne _ hsq, mul_fin_fin, sub_fin_fin,
+    add_fin_fin] at h
+  obtain ⟨h1, h2', h3⟩ := intervalOfKind_eq_ok h
+  refine ⟨_, _, fun hk => ⟨(h1 hk).1, ?_⟩, h2', h3⟩
+  have := (h1 hk).2
+  simpa using this
+
+end XR
+
+/-! ## the effective degrees of freedom are positive whenever they are defined -/
+
+theorem welch_dof_pos (α β na nb : ℝ) (hα : 0 ≤ α) (hβ : 0 ≤ β) (hna : 2 ≤ na) (hnb : 2 ≤ nb)
+    (hD : α * α / (na + 1) + β * β / (nb + 1) ≠ 0) :
+    0 < (α + β) * (α + β) / (α * α / (na + 1) + β * β / (nb + 1)) - 1 - 1 := by
+  have h1 : α * α / (na + 1) ≤ α * α / 3 :=
+    div_le_div_of_nonneg_left (mul_nonneg hα hα) (by norm_num) (by linarith)
+  have h2 : β * β / (nb + 1) ≤ β * β / 3 :=
+    div_le_div_of_nonneg_left (mul_nonneg hβ hβ) (by norm_num) (by linarith)
+  have h3 : 0 ≤ α * α / (na + 1) := div_nonneg (mul_nonneg hα hα) (by linarith)
+  have h4 : 0 ≤ β * β / (nb + 1) := div_nonneg (mul_nonneg hβ hβ) (by linarith)
+  have hDpos : 0 < α * α / (na + 1) + β * β / (nb + 1) := lt_of_le_of_ne (by linarith) (Ne.symm hD)
+  have hab : 0 ≤ α * β := mul_nonneg hα hβ
+  have hlt : 2 * (α * α / (na + 1) + β * β / (nb + 1)) < (α + β) * (α + β) := by nlinarith
+  have : 2 < (α + β) * (α + β) / (α * α / (na + 1) + β * β / (nb + 1)) := by
+    rw [lt_div_iff₀ hDpos]; exact hlt
+  linarith
+
+namespace XR
+
+theorem effectiveDof_safe (α β : ℝ) (na nb : ℕ) (hα : 0 ≤ α) (hβ : 0 ≤ β) (hna : 2 ≤ na)
+    (hnb : 2 ≤ nb) :
+    Unpaired.effectiveDof (fin α) (fin β) (fin na) (fin nb) = nan ∨
+    Unpaired.effectiveDof (fin α) (fin β) (fin na) (fin nb) = pinf ∨
+    ∃ r : ℝ, Unpaired.effectiveDof (fin α) (fin β) (fin na) (fin nb) = fin r ∧ 0 < r := by
+  have hna' : (2 : ℝ) ≤ na := by exact_mod_cast hna
+  have hnb' : (2 : ℝ) ≤ nb := by exact_mod_cast hnb
+  have ha1 : (na : ℝ) + 1 ≠ 0 := by linarith
+  have hb1 : (nb : ℝ) + 1 ≠ 0 := by linarith
+  unfold Unpaired.effectiveDof
+  simp only [add_fin_fin, mul_fin_fin, one_eq, div_fin_fin_of_ne _ ha1, div_fin_fin_of_ne _ hb1]
+  by_cases hD : α * α / ((na : ℝ) + 1) + β * β / ((nb : ℝ) + 1) = 0
+  · rw [div_fin_fin, if_pos hD]
+    by_cases hN : (α + β) * (α + β) = 0
+    · left; rw [if_pos hN]; rfl
+    · right; left
+      have : 0 < (α + β) * (α + β) := lt_of_le_of_ne (mul_self_nonneg _) (Ne.symm hN)
+      rw [if_neg hN, if_pos this]; rfl
+  · right; right
+    rw [div_fin_fin_of_ne _ hD]
+    exact ⟨_, rfl, welch_dof_pos α β na nb hα hβ hna' hnb' hD⟩
+
+/-- on `XR` the guards of `Unpaired::ci_mean` leave `s²/n` finite and non-negative -/
+theorem s2n_of_finite (a : Arith XR) (h2 : 2 ≤ a.count) (h : Scalar.isFinite (Unpaired.s2n a) = true) :
+    ∃ α : ℝ, Unpaired.s2n a = fin α ∧ 0 ≤ α := by
+  unfold Unpaired.s2n at h ⊢
+  obtain ⟨s, hs⟩ := (isFinite_iff _).mp (isFinite_mul (isFinite_div_left h)).1
+  have hn : ((a.count : ℕ) : ℝ) ≠ 0 := by
+    have : (2 : ℝ) ≤ a.count := by exact_mod_cast h2
+    linarith
+  rw [hs]
+  simp only [mul_fin_fin, ofNat_eq, div_fin_fin_of_ne _ hn]
+  exact ⟨_, rfl, div_nonneg (mul_self_nonneg s) (Nat.cast_nonneg _)⟩
+
+/-- on `XR`, `Unpaired::ci_mean` never panics for a confidence whose quantile is a probability:
+    the effective degrees of freedom are either undefined (NaN, `+∞`: the z branch is taken) or
+    strictly positive -/
+theorem unpaired_ciMean_isPanic (crit : Crit XR) (u : Unpaired XR) (conf : Confidence XR)
+    (hq : probOk conf.quantile = true) : (Unpaired.ciMean crit u conf).isPanic = false := by
+  rw [Bool.eq_false_iff]
+  intro hp
+  obtain ⟨h1, h2, _, h4, h5⟩ := (Unpaired.ciMean_isPanic_iff crit u conf).mp hp
+  rcases h5 with ⟨h5, h6⟩ | h5
+  swap
+  · simp [hq] at h5
+  unfold Unpaired.semF at h4
+  obtain ⟨hA, hB⟩ := isFinite_add (isFinite_sqrt h4)
+  obtain ⟨α, hα, hα0⟩ := s2n_of_finite u.a h1 hA
+  obtain ⟨β, hβ, hβ0⟩ := s2n_of_finite u.b h2 hB
+  have hd : Unpaired.dofF u = Unpaired.effectiveDof (fin α) (fin β) (fin u.a.count) (fin u.b.count) := by
+    unfold Unpaired.dofF; rw [hα, hβ]; rfl
+  rw [up_eq, hd] at h5 h6
+  rcases effectiveDof_safe α β u.a.count u.b.count hα0 hβ0 h1 h2 with h | h | ⟨r, h, hr⟩ <;>
+    rw [h] at h5 h6
+  · simp at h5
+  · simp [populationLimit] at h5
+  · simp [hr] at h6
+
+end XR
+
+/-! ## `Rex`: the same, away from the `0/0` the exact-real carrier cannot represent -/
+
+theorem Unpaired.ciMean_isPanic_Rex (crit : Crit Rex) (u : Unpaired Rex) (conf : Confidence Rex)
+    (hq : probOk conf.quantile = true)
+    (hpos : (Unpaired.s2n u.a).val ≠ 0 ∨ (Unpaired.s2n u.b).val ≠ 0) :
+    (Unpaired.ciMean crit u conf).isPanic = false := by
+  rw [Bool.eq_false_iff]
+  intro hp
+  obtain ⟨h1, h2, _, _, h5⟩ := (Unpaired.ciMean_isPanic_iff crit u conf).mp hp
+  rcases h5 with ⟨_, h6⟩ | h5
+  swap
+  · simp [hq] at h5
+  have hna : (2 : ℝ) ≤ u.a.count := by exact_mod_cast h1
+  have hnb : (2 : ℝ) ≤ u.b.count := by exact_mod_cast h2
+  have hα : 0 ≤ (Unpaired.s2n u.a).val := by
+    simp only [Unpaired.s2n, RR.div_val, RR.mul_val, RR.ofNat_val, id]
+    exact div_nonneg (mul_self_nonneg _) (by linarith)
+  have hβ : 0 ≤ (Unpaired.s2n u.b).val := by
+    simp only [Unpaired.s2n, RR.div_val, RR.mul_val, RR.ofNat_val, id]
+    exact div_nonneg (mul_self_nonneg _) (by linarith)
+  have hD : (Unpaired.s2n u.a).val * (Unpaired.s2n u.a).val / ((u.a.count : ℝ) + 1) +
+      (Unpaired.s2n u.b).val * (Unpaired.s2n u.b).val / ((u.b.count : ℝ) + 1) ≠ 0 := by
+    have e1 : 0 ≤ (Unpaired.s2n u.a).val * (Unpaired.s2n u.a).val / ((u.a.count : ℝ) + 1) :=
+      div_nonneg (mul_self_nonneg _) (by linarith)
+    have e2 : 0 ≤ (Unpaired.s2n u.b).val * (Unpaired.s2n u.b).val / ((u.b.count : ℝ) + 1) :=
+      div_nonneg (mul_self_nonneg _) (by linarith)
+    intro h0
+    have z1 : (Unpaired.s2n u.a).val * (Unpaired.s2n u.a).val / ((u.a.count : ℝ) + 1) = 0 := by linarith
+    have z2 : (Unpaired.s2n u.b).val * (Unpaired.s2n u.b).val / ((u.b.count : ℝ) + 1) = 0 := by linarith
+    rw [div_eq_zero_iff] at z1 z2
+    rcases hpos with hp | hp
+    · rcases z1 with z | z
+      · exact hp (mul_self_eq_zero.mp z)
+      · linarith
+    · rcases z2 with z | z
+      · exact hp (mul_self_eq_zero.mp z)
+      · linarith
+  have := welch_dof_pos _ _ _ _ hα hβ hna hnb hD
+  have hval : (Widen.up (Unpaired.dofF u) : Rex).val =
+      ((Unpaired.s2n u.a).val + (Unpaired.s2n u.b).val) * ((Unpaired.s2n u.a).val + (Unpaired.s2n u.b).val) /
+        ((Unpaired.s2n u.a).val * (Unpaired.s2n u.a).val / ((u.a.count : ℝ) + 1) +
+          (Unpaired.s2n u.b).val * (Unpaired.s2n u.b).val / ((u.b.count : ℝ) + 1)) - 1 - 1 := by
+    simp [Unpaired.dofF, Unpaired.effectiveDof]
+  have h6' : ¬ (0 : ℝ) < (Widen.up (Unpaired.dofF u) : Rex).val := by
+    intro hh
+    have : gt (Widen.up (Unpaired.dofF u) : Rex) (NumOps.zero : Rex) = true := by simpa using hh
+    rw [this] at h6; cases h6
+  rw [hval] at h6'
+  exact h6' this
+
 end StatsCI
